@@ -334,7 +334,24 @@ def factory_part(mon, rec):
     checks.append(("instance", f(_VFamily, inst) is inst))
     o = f(_VFamily, "plain")
     checks.append(("str", type(o) is _Plain and o.x == 0))
-    for mk in (dict, OrderedDict, lambda d: types.MappingProxyType(dict(d))):
+    import collections
+
+    class _UserMapping(collections.abc.Mapping):
+        """a mapping that is no dict (a frozen configuration node, a view on a larger tree)"""
+
+        def __init__(self, d):
+            self._d = dict(d)
+
+        def __getitem__(self, k):
+            return self._d[k]
+
+        def __iter__(self):
+            return iter(self._d)
+
+        def __len__(self):
+            return len(self._d)
+
+    for mk in (dict, OrderedDict, lambda d: types.MappingProxyType(dict(d)), lambda d: collections.ChainMap(dict(d), {}), _UserMapping):
         o = f(_VFamily, mk({"alias": "plain", "x": 5}))
         checks.append(("mapping_alias", type(o) is _Plain and o.x == 5))
         o = f(_VFamily, mk({"name": "plain", "x": 6}))
@@ -345,6 +362,13 @@ def factory_part(mon, rec):
         checks.append(("alias_and_name_reordered", type(o) is _Named and o.name == "gentle"))
         o = f(_VFamily, mk({"name": "named"}))
         checks.append(("name_only_is_alias", type(o) is _Named and o.name == "default"))
+        # a mapping is keyword arguments: every key is passed on with its value, a null (None), zero or empty one as well
+        o = f(_VFamily, mk({"alias": "plain", "x": None}))
+        checks.append(("none_valued_key_is_passed", type(o) is _Plain and o.x is None))
+        o = f(_VFamily, mk({"name": "plain", "x": 0}))
+        checks.append(("zero_valued_key_is_passed", type(o) is _Plain and o.x == 0 and o.x is not False))
+        o = f(_VFamily, mk({"name": "plain", "x": ""}))
+        checks.append(("empty_valued_key_is_passed", type(o) is _Plain and o.x == ""))
     for bad in ("nope", {"alias": "nope"}, {"name": "nope", "x": 1}):
         try:
             f(_VFamily, bad)
